@@ -109,6 +109,10 @@ def gen_struct(t, out):
     out.append("    fn probe(&self, base: usize) -> Value { json!({\"offs\": [%s], \"subs\": [%s]}) }" % (
         ", ".join("(&self.%s as *const _ as *const u8 as usize) - base" % a for a in acc),
         ", ".join("self.%s.probe(base)" % a for a in acc)))
+    out.append("    fn rand_content(rng: &mut crate::drive::Rng, d: usize) -> Value { json!([%s]) }" % ", ".join("%s::rand_content(rng, d)" % shape(x) for x in tys))
+    arms = " ".join("%d => child_op(%d, &self.%s, rng)," % (i, i, a) for i, a in enumerate(acc))
+    first = "if rng.chance(15) { return Some((vec![], mk_op(\"%s\", 0, Self::rand_content(rng, 2)))); } " % ("set" if t["sized"] else "assign")
+    out.append("    fn rand_op(&self, rng: &mut crate::drive::Rng) -> Option<(Vec<usize>, Value)> { %smatch rng.below(%d) { %s _ => None } }" % (first, max(len(fs), 1), arms))
     out.append("}")
     if t["sized"]:
         out.append("impl SizedShape for %s {" % name)
@@ -214,6 +218,16 @@ def gen_enum(t, out):
             ", ".join("(f%d as *const _ as *const u8 as usize) - base" % j for j in range(len(v))),
             ", ".join("f%d.probe(base)" % j for j in range(len(v)))))
     out.append("    fn probe(&self, base: usize) -> Value { let _ = base; match %s { %s } }" % (scrut, " ".join(arms)))
+    rarms = []
+    for i, v in enumerate(vs):
+        rarms.append("%d => json!({\"tag\": %d, \"fs\": [%s]})," % (i, i + 1, ", ".join("%s::rand_content(rng, d)" % shape(rust_type(f)) for f in v)))
+    out.append("    fn rand_content(rng: &mut crate::drive::Rng, d: usize) -> Value { let _ = d; match rng.below(%d) { %s _ => unreachable!() } }" % (len(vs), " ".join(rarms)))
+    oarms = []
+    for i, v in enumerate(vs):
+        inner = " ".join("%d => child_op(%d, f%d, rng)," % (j, j, j) for j in range(len(v)))
+        oarms.append("%s => match rng.below(%d) { %s _ => None }," % (pat(prefix, i, v), max(len(v), 1), inner))
+    first = "if rng.chance(30) { return Some((vec![], mk_op(\"%s\", 0, Self::rand_content(rng, 2)))); } " % ("set" if sized else "assign")
+    out.append("    fn rand_op(&self, rng: &mut crate::drive::Rng) -> Option<(Vec<usize>, Value)> { %smatch %s { %s } }" % (first, scrut, " ".join(oarms)))
     out.append("}")
     if sized:
         out.append("impl SizedShape for %s {" % name)
